@@ -226,6 +226,7 @@ type Exec struct {
 	nnElems    map[string]bool // element types whose slices never hold nil
 	nnValues   map[string]bool // map types whose values are never nil
 	nnFields   map[string]bool // "pkg.Struct.field" never nil
+	nnBoxed    map[string]bool // interface types that never box a nil pointer
 }
 
 func NewExec(ld *Loaded, cs *Contracts) *Exec {
@@ -246,7 +247,7 @@ func NewExec(ld *Loaded, cs *Contracts) *Exec {
 		x.ghostFields[key] = append(x.ghostFields[key], ghostLeaf{g.Field, ls[0].sort, t})
 	}
 	x.leafCache = map[string][]leaf{}
-	x.nnElems, x.nnValues, x.nnFields = map[string]bool{}, map[string]bool{}, map[string]bool{}
+	x.nnElems, x.nnValues, x.nnFields, x.nnBoxed = map[string]bool{}, map[string]bool{}, map[string]bool{}, map[string]bool{}
 	for _, d := range cs.NonNil {
 		switch d.Kind {
 		case "elems":
@@ -265,6 +266,13 @@ func NewExec(ld *Loaded, cs *Contracts) *Exec {
 			}
 		case "field":
 			x.nnFields[d.What] = true
+		case "boxed":
+			t := ld.resolveTypeString(d.Pkg, d.What)
+			if t == nil {
+				x.errors = append(x.errors, d.Where+": nonnil boxed: unknown type")
+			} else {
+				x.nnBoxed[typeKey(t)] = true
+			}
 		}
 	}
 	return x
